@@ -184,6 +184,32 @@ def order(ctx, shard, nshards):
 FMT_ALL = "|".join(SPECS)
 
 
+MOVED_DADD = ["+1mo", "-1mo", "+11mo", "+1y", "-1y", "+4y", "+1y1mo", "+5w", "-60w", "+1mo1d", "+3b"]
+MOVED_DROUND = ["Mon", "-Thu", "Sun", "Feb", "-Dec", "Jun", "1d", "-31d", "29d", "10w", "-50w", "53w", "1w"]
+
+
+def moved_bad(line):
+    """None if LINE ('%F|' + FMT_ALL output) describes one day throughout, else (spec, expected)"""
+    p = line.split("|")
+    try:
+        y, m, d = p[0].split("-")
+        y, m, d = int(y), int(m), int(d)
+        if not (1 <= m <= 12 and 1 <= d <= R.mdays(y, m)):
+            raise ValueError
+        n = R.n_of(y, m, d)
+    except ValueError:
+        return ("%F", "a date")
+    if not 8 <= n <= 910675 - 10:
+        return None
+    want = SP.render(n, SPECS)
+    if len(p) - 1 != len(SPECS):
+        return ("*", "|".join(w[0] for w in want))
+    for sp, g, w in zip(SPECS, p[1:], want):
+        if g not in w:
+            return (sp, w[0])
+    return None
+
+
 def toolrep(ctx, shard, nshards):
     """values produced by dseq / dadd / dround print like the same day via dconv"""
     sub = Sub("c02.toolrep")
@@ -249,6 +275,29 @@ def toolrep(ctx, shard, nshards):
                                                          "spec": sp, "kind": "toolrep"},
                               expected=ref[i], actual=oo)
             sub.evaluations += len(sel) * len(SPECS)
+    # values a tool has MOVED (calendar steps, field targets): whatever day the result is, all
+    # specifiers must describe that one day; the day is read from the %F field of the same line
+    rndm = random.Random(ctx.sub_seed("moved", shard))
+    # steps of up to 4 years / 60 weeks must stay inside the supported years
+    inner = [n for n in days if 500 <= n <= 910675 - 2000]
+    msel = rndm.sample(inner, min(len(inner), 400 if not ctx.thorough else 4000))
+    for s in ("ymd", "ymcw", "ywd", "yd"):
+        mk = SRC[s][1]
+        lines = [mk(n) for n in msel]
+        for tool, arg in [("dadd", a) for a in MOVED_DADD] + [("dround", a) for a in MOVED_DROUND]:
+            try:
+                o, _ = run_lines(ctx.build, tool, ["-f", "%F|" + FMT_ALL, "--", arg], lines)
+            except BatchError as e:
+                V.add("batch:moved:%s:%s" % (tool, s), {"kind": "batch"}, detail=str(e), actual=e.result.brief())
+                continue
+            for n, oo in zip(msel, o):
+                bad = moved_bad(oo)
+                if bad:
+                    V.add("moved:%s:%s:%s:%s" % (tool, s, arg.lstrip("+-0123456789"), bad[0]),
+                          {"tool": tool, "s": s, "n": n, "arg": arg, "kind": "moved"},
+                          expected=bad[1], actual=oo)
+            sub.evaluations += len(msel) * len(SPECS)
+            sub.nontrivial_count += len(msel) * len(SPECS)
     # dseq: runs of consecutive days FIRST..LAST with -f
     rnd = random.Random(ctx.sub_seed("dseq", shard))
     for s in ("ymd", "ymcw", "ywd", "yd"):
@@ -400,6 +449,12 @@ def replay(ctx, subname, case):
             oo, _ = run_lines(ctx.build, "dconv", a + ["-f", sp], [line])
             exp += oo[0]
         return None if o[0] == exp else {"input": line, "fmt": fmt, "expected": exp, "actual": o[0]}
+    if subname == "c02.toolrep" and k == "moved":
+        o, _ = run_lines(ctx.build, case["tool"], ["-f", "%F|" + FMT_ALL, "--", case["arg"]],
+                         [SRC[case["s"]][1](case["n"])])
+        bad = moved_bad(o[0])
+        return None if not bad else {"input": SRC[case["s"]][1](case["n"]), "arg": case["arg"],
+                                     "spec": bad[0], "expected": bad[1], "actual": o[0]}
     if subname == "c02.toolrep":
         n = case["n"]
         if case["tool"] == "dseq":
